@@ -163,6 +163,30 @@ def gen_opts(rng, quiet_bias=0.7):
     return o
 
 
+def gen_nested(rng, solver):
+    """nested option dictionary of an external solver (solvers.options['glpk'] / ['dsdp'])"""
+    if solver == 'glpk':
+        d = {'msg_lev': 'GLP_MSG_OFF'}
+        if rng.random() < 0.6:
+            d['it_lim'] = rng.choice([1, 3, 1000])
+        if rng.random() < 0.3:
+            d['presolve'] = rng.choice(['GLP_ON', 'GLP_OFF'])
+        return d
+    d = {'DSDP_Monitor': 0}
+    if rng.random() < 0.6:
+        d['DSDP_MaxIts'] = rng.choice([2, 10, 200])
+    if rng.random() < 0.3:
+        d['DSDP_GapTolerance'] = rng.choice([1e-3, 1e-7])
+    return d
+
+
+def add_nested(rng, opts, inst):
+    """per-call options for an instance solved by an external back-end carry that back-end's dictionary"""
+    if opts is not None and inst.get('solver') in ('glpk', 'dsdp') and rng.random() < 0.75:
+        opts[inst['solver']] = gen_nested(rng, inst['solver'])
+    return opts
+
+
 def gen_bad_opts(rng):
     o = gen_opts(rng)
     if rng.random() < 0.15:
@@ -218,18 +242,23 @@ def gen_case(rng, tier='quick'):
         ops = []
         for _ in range(rng.randint(4, 12)):
             r = rng.random()
-            if r < 0.22:
+            ext = sorted(set(i['solver'] for i in insts if i.get('solver')))
+            if r < 0.22 and ext and rng.random() < 0.5:
+                sv = rng.choice(ext)
+                ops.append(['set', sv, gen_nested(rng, sv)])
+            elif r < 0.22:
                 k = rng.choice(list(VALID))
                 ops.append(['set', k, rng.choice(VALID[k])])
             elif r < 0.28:
                 k, v = rng.choice(INVALID)
                 ops.append(['set', k, v])
             elif r < 0.36:
-                ops.append(['del', rng.choice(list(VALID) + ['kktreg'])])
+                ops.append(['del', rng.choice(list(VALID) + ['kktreg', 'glpk', 'dsdp'])])
             elif r < 0.40:
                 ops.append(['clear'])
             elif r < 0.75:
-                ops.append(['solve', rng.randrange(ninst), gen_opts(rng) if rng.random() < 0.6 else None])
+                i_ = rng.randrange(ninst)
+                ops.append(['solve', i_, add_nested(rng, gen_opts(rng), insts[i_]) if rng.random() < 0.6 else None])
             elif r < 0.85:
                 ops.append(['solve', rng.randrange(ninst), gen_bad_opts(rng)])
             else:
@@ -250,14 +279,19 @@ def gen_case(rng, tier='quick'):
                 if rng.random() < 0.12:
                     ops.append(['solve', rng.randrange(ninst), gen_bad_opts(rng)])
                 else:
-                    ops.append(['solve', rng.randrange(ninst), gen_opts(rng, 0.8)])
+                    i_ = rng.randrange(ninst)
+                    ops.append(['solve', i_, add_nested(rng, gen_opts(rng, 0.8), insts[i_])])
             clients.append(ops)
         case['churn'] = None
         if rng.random() < 0.5:
             ops = []
             for _ in range(rng.randint(2, 10)):
                 r = rng.random()
-                if r < 0.45:
+                ext = sorted(set(i['solver'] for i in insts if i.get('solver')))
+                if r < 0.45 and ext and rng.random() < 0.4:
+                    sv = rng.choice(ext)
+                    ops.append(['set', sv, gen_nested(rng, sv)])
+                elif r < 0.45:
                     k = rng.choice(list(VALID))
                     ops.append(['set', k, rng.choice(VALID[k])])
                 elif r < 0.7:
